@@ -268,7 +268,7 @@ def _longseq(n, kind, pos, s, i):
     member replaced by the symbolic payload, one by a nested list"""
     seq = ["m%d" % k for k in range(n)]
     if n:
-        seq[pos if pos < n else n - 1] = s
+        seq[(0, n - 1, min(10, n - 1))[pos]] = s          # first, last, the first two-digit key
         seq[0] = [i, "first"] if kind >= 2 else seq[0]
     o = Obj()
     seq = tuple(seq) if kind in (1, 3) else seq
@@ -279,13 +279,15 @@ def _longseq(n, kind, pos, s, i):
 def rt_long_seq(n: int, kind: int, pos: int, s: str, i: int, store: int) -> bool:
     """element order of sequences of every length 0..23 (member keys "0".."22": one, two digits)
 
-    pre: 0 <= n <= 23 and 0 <= kind <= 4 and 0 <= pos <= 22 and len(s) <= 2 and 0 <= store <= 1
+    pre: 0 <= n <= 23 and 0 <= kind <= 4 and 0 <= pos <= 2 and len(s) <= 2 and 0 <= store <= 1
     pre: _fix("n", n) and _fix("kind", kind) and _fix("store", store)
     post: __return__ == True
     """
     for k in range(24):
         if n == k:
-            return _rt(_longseq(k, kind, pos, s, i), store, twice=False)
+            for q in range(3):
+                if pos == q:
+                    return _rt(_longseq(k, kind, q, s, i), store, twice=False)
     return False
 
 
